@@ -745,6 +745,13 @@ func runHistory(tmp string, drv *hx.Driver, h HCase, res *hx.Result) (kind, sig,
 		case "outage":
 			x.down.Store(op.Arg != 0)
 			count(fmt.Sprintf("op-outage-%d", op.Arg))
+		case "lsync":
+			// the database side only (what the DB monitor does between two replica syncs); no new commit
+			if err := x.db.Sync(ctx); err != nil {
+				return "", "", ""
+			}
+			notePos()
+			count("op-lsync")
 		case "dbsync":
 			// a commit reaches the local level-0 directory; the upload is attempted and may fail (outage)
 			for j := 0; j < op.Arg; j++ {
@@ -972,6 +979,9 @@ func genLag(rnd *hx.Rand) HCase {
 	}
 	if rnd.Chance(70) {
 		h.Ops = append(h.Ops, HOp{Op: "restart", Sleep: 2})
+	}
+	if rnd.Chance(80) {
+		h.Ops = append(h.Ops, HOp{Op: "lsync", Sleep: 2}) // initialises a restarted DB; writes no new level-0 file
 	}
 	h.Ops = append(h.Ops, HOp{Op: "outage", Arg: 0, Sleep: 3})
 	if rnd.Chance(25) {
